@@ -190,6 +190,13 @@ class Transportation1dSorter {
  private:
   std::vector<int> srcOrder;
   std::vector<int> snkOrder;
+
+  // Total number of sources of the original problem
+  int nbSources;
+
+  // Sources without supply are left out of the sorted problem; each is paired
+  // with the closest sink that has some demand
+  std::vector<std::pair<int, int>> emptySources;
 };
 
 /**
